@@ -213,6 +213,20 @@ def sample_stage(rep, impl, stats):
             capped("sample_" + n, "# negative sample %s: diagnostics (line, severity) differ from %s.err\n# expected %s\n# got      %s rc=%s\n%s" % (n, n, exp, got, r["rc"], src), True)
         elif got != exp:
             stats["samples_reworded"] = stats.get("samples_reworded", 0) + 1
+    # corpus/tc_known: programs that break a static rule and that the tree is KNOWN to accept (design decisions / repairs that
+    # would refuse sample programs): each is a finding keyed by its file name — KNOWN-FINDING while listed and still accepted,
+    # silent once the compiler refuses it, a VIOLATION if it is accepted and not listed
+    kdir = os.path.join(os.path.dirname(os.path.dirname(os.path.abspath(__file__))), "corpus", "tc_known")
+    kfiles = sorted(glob.glob(os.path.join(kdir, "*.nev")))
+    if kfiles:
+        ksrcs = [open(f, encoding="utf-8", errors="replace").read() for f in kfiles]
+        for f, src, r in zip(kfiles, ksrcs, impl.run(ksrcs)):
+            nm = os.path.basename(f)[:-4]
+            if r["crash"] is not None:
+                capped("known_" + nm, "# %s crashes the compiler: %s\n%s" % (nm, r["crash"], src), True)
+            elif r["rc"] == 0:
+                rep.finding("accepted:" + nm, "# ACCEPTED (rc 0) although it breaks a static rule\n" + src)
+        stats["known_accepted_probes"] = len(kfiles)
     stats["samples_run"] = len(names)
     stats["samples_bad"] = bad
     stats["sample_error_lines"] = sum(len(e) for e in exps)
